@@ -178,6 +178,7 @@ class Env:
         self.call_style = call_style
         self.measure_depth = measure_depth
         self.notes = []
+        self.flat_mode = False     # async engines: callbacks of one group overlap, never nest
 
     # -- observation helpers ---------------------------------------------------
     def _mk(self, prov, name, kind, args, kwargs):
@@ -230,7 +231,7 @@ class Env:
     def begin(self, rec):
         rec.seq_begin = self.seq
         self.seq += 1
-        (self.stack[-1].children if self.stack else self.top).append(rec)
+        (self.stack[-1].children if (self.stack and not self.flat_mode) else self.top).append(rec)
         self.flat.append(rec)
         self.stack.append(rec)
 
@@ -304,27 +305,17 @@ class Env:
                     except Exception as e:
                         self.nested_returns.append((rec.cid, ev, tag, ("EXC", e)))
                         raise
+                    if hasattr(r, "close") and hasattr(r, "send"):
+                        # a plain-function callback on the async engine inside a running loop
+                        # gets the engine's (no-op) processing coroutine back and cannot await
+                        # it; the event itself is already queued.  Not counted as a result.
+                        r.close()
+                        r = None
                     self.nested_returns.append((rec.cid, ev, tag, r))
         k = plan.faults.get((rec.cid, rec.tag, rec.tidx))
         if k is not None:
             raise make_boom(k)
         return self.default_result(rec)
-        sm = kwargs.get("machine")
-        for st in steps:
-            op = st[0]
-            if op == "raise":
-                raise make_boom(st[1])
-            elif op == "send":
-                ev, tag = st[1], st[2]
-                try:
-                    r = self.do_send(sm, ev, tag)
-                except Exception as e:
-                    self.nested_returns.append((rec.cid, rec.n, ev, tag, ("EXC", e)))
-                    raise
-                self.nested_returns.append((rec.cid, rec.n, ev, tag, r))
-            elif op == "ret":
-                result = st[1]
-        return result
 
     def do_send(self, sm, ev, tag):
         if self.call_style == "method":
@@ -395,31 +386,16 @@ class Env:
         if k is not None:
             raise make_boom(k)
         return self.default_result(rec)
-        sm = kwargs.get("machine")
-        for st in steps:
-            op = st[0]
-            if op == "raise":
-                raise make_boom(st[1])
-            elif op == "send":
-                ev, tag = st[1], st[2]
-                try:
-                    r = self.do_send(sm, ev, tag)
-                    import inspect
-                    if inspect.isawaitable(r):
-                        r = await r
-                except Exception as e:
-                    self.nested_returns.append((rec.cid, rec.n, ev, tag, ("EXC", e)))
-                    raise
-                self.nested_returns.append((rec.cid, rec.n, ev, tag, r))
-            elif op == "ret":
-                result = st[1]
-        return result
 
     async def point(self, tag):
         """An await point.  Default: yield once to the loop (like sleep(0)).
         The completion-order explorer replaces this method."""
         import asyncio
-        await asyncio.sleep(0)
+        loop = asyncio.get_running_loop()
+        if hasattr(loop, "point"):
+            await loop.point(tag)
+        else:
+            await asyncio.sleep(0)
 
 
 _BUILTIN = frozenset(
